@@ -215,12 +215,19 @@ def run(pid, tier, seed, t0):
             for e in eps:
                 if e not in uniq:
                     uniq.append(e)
-            sel = uniq[:40]
-            rp = core.write_replay(pid, [table[e] for e in sel if e in table], si)
+            sel = [e for e in uniq if e in table][:40]
+            if not sel:
+                # failures attributed to a whole thread / process (no single episode): re-run the first episodes of the stage
+                sel = list(table)[:40]
+            if st.get('mode') == 'threads':
+                # a thread workload only means something together with the other threads of its run
+                runs = set(json.loads(table[e]).get('run') for e in sel)
+                sel = [e for e in table if json.loads(table[e]).get('run') in runs][:400]
+            rp = core.write_replay(pid, [table[e] for e in sel], si)
             j = _judge_cases(pid, '%s.confirm%d' % (pid, si), st, rp, nchunks=1)
             again = set(f[0] for f in _select(pid, j['fails']))
             for e in sel:
-                if e in again:
+                if e in again or (again and not (again & set(sel))):
                     confirmed.append((si, e, table[e]))
             if len(uniq) > len(sel) and again:
                 # more failing episodes than were re-run: keep them as unconfirmed extras
